@@ -13,7 +13,7 @@ from pbt.harness import PropertyViolation, Inconclusive
 ID = "C05"
 TITLE = "Exact stochastic simulation samples the continuous-time Markov chain's law"
 RULE = ("Three generated families with closed-form laws: (i) linear progression chains of 2-4 compartments with per-capita rates in "
-        "[0.1,5], N in [5,50] individuals and horizon with k*T in [0.2,3]: occupancy at T summed over M runs is Binomial(N*M, p_j(T)), read either from the raw path of a scalar-horizon run or from the gridded output solve_stochast(grid, M, exact=True) at every requested time incl. the last one, "
+        "[0.1,5], N in [5,50] individuals and horizon with k*T in [0.2,3] (or, declared with two-sided limits (0,N), N in [2,8] observed late so that the absorbing compartment fills up to its limit): occupancy at T summed over M runs is Binomial(N*M, p_j(T)), read either from the raw path of a scalar-horizon run or from the gridded output solve_stochast(grid, M, exact=True) at every requested time incl. the last one, "
         "with p(T) from the matrix exponential of the chain generator; (ii) SIR with N in [8,30], R0 in [0.5,4] run to extinction: "
         "final-size pmf from dynamic programming over the embedded jump chain, one exact binomial test per size class (classes with "
         "expected count < 20 pooled); (iii) 2-4 competing constant/linear events from a fixed state, M independent first steps of the "
